@@ -207,7 +207,23 @@ Inductive sop :=
 | OpDeletePath (p : list key)                        (* '_delete': [(k,)] -- a path tuple instead of a key *)
 | OpUpd (k : key) (v : tree Z).                      (* a plain value update of the child k ("inner keys") *)
 
-Definition op_rank (o : sop) : nat :=
+(* the mothers of the '_divide' operations of one update *)
+Definition mothers (ops : list sop) : list key :=
+  flat_map (fun o => match o with OpDivide m _ _ => [m] | _ => [] end) ops.
+
+(* the order of application, given the mothers `ms` divided by the same update *)
+Definition op_rank (ms : list key) (o : sop) : nat :=
+  match o with
+  | OpAdd _ _ => 0 | OpMove _ _ | OpMoveP _ _ => 1 | OpGenerate _ _ _ => 2
+  | OpUpd k _ => if existsb (N.eqb k) ms then 3   (* the divided mother's own entry: just before '_divide' *)
+                 else 5                           (* after the structural keys, before '_delete' *)
+  | OpDivide _ _ _ => 4
+  | OpDelete _ | OpDeletePath _ => 6
+  end.
+
+(* the pinned order (kept for the record): the entry of a divided mother came after '_divide', where it was
+   silently dropped because she was no longer there *)
+Definition op_rank_pinned (o : sop) : nat :=
   match o with OpAdd _ _ => 0 | OpMove _ _ | OpMoveP _ _ => 1 | OpGenerate _ _ _ => 2 | OpDivide _ _ _ => 3
              | OpUpd _ _ => 4                (* after the structural keys, before '_delete' *)
              | OpDelete _ | OpDeletePath _ => 5 end.
@@ -381,12 +397,15 @@ Definition apply_op (t : cnode) (here : list key) (o : sop) (uid : N) : res (cno
 
 (* one update dict carrying several operations for the node `here`: _add, _move, _generate, _divide,
    (inner keys: handled by the caller), _delete -- whatever the order of the keys in the dict *)
-Fixpoint insert_op (o : sop) (l : list sop) : list sop :=
+(* the entry of a child that the same update divides is applied just before '_divide', while she is still
+   there; the entries of the other children after it *)
+Fixpoint insert_op (ms : list key) (o : sop) (l : list sop) : list sop :=
   match l with
   | [] => [o]
-  | x :: r => if Nat.ltb (op_rank o) (op_rank x) then o :: x :: r else x :: insert_op o r
+  | x :: r => if Nat.ltb (op_rank ms o) (op_rank ms x) then o :: x :: r else x :: insert_op ms o r
   end.
-Definition order_ops (ops : list sop) : list sop := fold_left (fun acc o => insert_op o acc) ops [].
+Definition order_ops (ops : list sop) : list sop :=
+  let ms := mothers ops in fold_left (fun acc o => insert_op ms o acc) ops [].
 
 Definition apply_ops (t : cnode) (here : list key) (ops : list sop) (uid : N) : res (cnode * reports * N) :=
   fold_left (fun acc o =>
@@ -395,6 +414,22 @@ Definition apply_ops (t : cnode) (here : list key) (ops : list sop) (uid : N) : 
                  rbind (apply_op t' here o uid') (fun tru' =>
                    let '(t'', rp', uid'') := tru' in Ok (t'', rapp rp rp', uid''))))
             (order_ops ops) (Ok (t, no_reports, uid)).
+
+(* the pinned order of one update dict (for the record) *)
+Fixpoint insert_op_pinned (o : sop) (l : list sop) : list sop :=
+  match l with
+  | [] => [o]
+  | x :: r => if Nat.ltb (op_rank_pinned o) (op_rank_pinned x) then o :: x :: r else x :: insert_op_pinned o r
+  end.
+Definition order_ops_pinned (ops : list sop) : list sop := fold_left (fun acc o => insert_op_pinned o acc) ops [].
+
+Definition apply_ops_pinned (t : cnode) (here : list key) (ops : list sop) (uid : N) : res (cnode * reports * N) :=
+  fold_left (fun acc o =>
+               rbind acc (fun tru =>
+                 let '(t', rp, uid') := tru in
+                 rbind (apply_op t' here o uid') (fun tru' =>
+                   let '(t'', rp', uid'') := tru' in Ok (t'', rapp rp rp', uid''))))
+            (order_ops_pinned ops) (Ok (t, no_reports, uid)).
 
 (* ---------- engine bookkeeping: Engine.apply_update / _delete_path ---------- *)
 Definition starts_with (p pre : list key) : bool :=
@@ -444,7 +479,41 @@ Definition flow_lookup (fl : list (list key * option (list (list seg)))) (p : li
   | None => None
   end.
 
-Definition book_apply (b : book) (rp : reports) : res book :=
+(* ---- Engine.apply_update, the folding of what Store.apply_update reports ----
+   (1) when the update deleted anything, only what the store still holds is registered (`held`): a node the same
+       update created and removed again is not;
+   (2) deletions are folded first: what left its place goes before what the same update put there;
+   (3) then topology, flow, processes (steps among them become sequential steps), steps.                       *)
+Definition held_proc (t : cnode) (pp : list key * pinfo) : bool :=
+  match cget t (fst pp) with
+  | Some (CProc _ pi) => N.eqb (pi_obj pi) (pi_obj (snd pp))
+  | _ => false
+  end.
+Definition held_path (t : cnode) (p : list key) : bool :=
+  match cget t p with Some _ => true | None => false end.
+Definition held_reports (t : cnode) (rp : reports) : reports :=
+  match r_deletions rp with
+  | [] => rp
+  | _ :: _ => {| r_topology := filter (held_path t) (r_topology rp);
+                 r_process := filter (held_proc t) (r_process rp);
+                 r_step := filter (held_proc t) (r_step rp);
+                 r_flow := filter (fun pf => held_path t (fst pf)) (r_flow rp);
+                 r_deletions := r_deletions rp; r_expire := r_expire rp |}
+  end.
+
+Definition book_delete (b : book) (ds : list (list key)) : book :=
+  fold_left (fun bk d =>
+                   {| b_procs := pdrop (b_procs bk) d;
+                      b_steps := pdrop (b_steps bk) d;
+                      b_graph := fold_left (fun g sp => if starts_with (fst sp) d then graph_remove g (dn (fst sp)) else g)
+                                           (b_steps bk) (b_graph bk);
+                      pub_processes := pdrop (pub_processes bk) d;
+                      pub_steps := pdrop (pub_steps bk) d;
+                      pub_topology := filter (fun q => negb (starts_with q d)) (pub_topology bk);
+                      pub_flow := pdrop (pub_flow bk) d |})
+            ds b.
+
+Definition book_register (b : book) (rp : reports) : res book :=
   (* topology, then flow *)
   let b1 := {| b_procs := b_procs b; b_steps := b_steps b; b_graph := b_graph b;
                pub_processes := pub_processes b; pub_steps := pub_steps b;
@@ -468,24 +537,25 @@ Definition book_apply (b : book) (rp : reports) : res book :=
                                    pub_topology := pub_topology bk'; pub_flow := pub_flow bk' |}))
                    (r_process rp) (Ok b1)) (fun b2 =>
   (* step updates *)
-  rbind (fold_left (fun acc pp =>
+  fold_left (fun acc pp =>
                       rbind acc (fun bk =>
                         let bk' := {| b_procs := b_procs bk; b_steps := b_steps bk; b_graph := b_graph bk;
                                       pub_processes := pub_processes bk;
                                       pub_steps := pset (pub_steps bk) (fst pp) (pi_obj (snd pp));
                                       pub_topology := pub_topology bk; pub_flow := pub_flow bk |} in
                         add_step bk' (fst pp) (snd pp) (flow_lookup (r_flow rp) (fst pp))))
-                   (r_step rp) (Ok b2)) (fun b3 =>
-  (* deletions *)
-  Ok (fold_left (fun bk d =>
-                   {| b_procs := pdrop (b_procs bk) d;
-                      b_steps := pdrop (b_steps bk) d;
-                      b_graph := fold_left (fun g sp => if starts_with (fst sp) d then graph_remove g (dn (fst sp)) else g)
-                                           (b_steps bk) (b_graph bk);
-                      pub_processes := pdrop (pub_processes bk) d;
-                      pub_steps := pdrop (pub_steps bk) d;
-                      pub_topology := filter (fun q => negb (starts_with q d)) (pub_topology bk);
-                      pub_flow := pdrop (pub_flow bk) d |})
-                (r_deletions rp) b3))).
+                   (r_step rp) (Ok b2)).
+
+Definition book_apply (b : book) (rp : reports) : res book :=
+  book_register (book_delete b (r_deletions rp)) rp.
+
+(* the whole of Engine.apply_update after the store operation: t' is the hierarchy after it *)
+Definition engine_apply (b : book) (t' : cnode) (rp : reports) : res book :=
+  book_apply b (held_reports t' rp).
+
+(* the pinned order (before fix "deletions first, only what the store still holds"): register everything the
+   store reported, then delete; kept for the record (book_apply_pinned_refuted) *)
+Definition book_apply_pinned (b : book) (rp : reports) : res book :=
+  rbind (book_register b rp) (fun b3 => Ok (book_delete b3 (r_deletions rp))).
 
 End WithKit.
